@@ -28,6 +28,12 @@ def hdc_class():
         """records what the selection routine receives and returns inside _compute"""
 
         rec = None
+        grid = None
+
+        def _check_grid(self):
+            super()._check_grid()
+            # realised limits / deltas (the defaults are only known after this call)
+            RecordingHDC.grid = (self.limits, self.deltas)
 
         @staticmethod
         def cumsum_biggest_until(array, limit):
@@ -75,6 +81,11 @@ def gen_arrays(rng, n):
         tot = a.sum()
         if tot > 0 and mode != 4:
             a = a / tot
+        if size and rng.integers(0, 40) == 0:
+            a[int(rng.integers(0, size))] = np.nan  # documented refusal: ValueError("array contains nan.")
+            yield {"part": "A", "shape": list(shape), "values": [float(v) for v in a.ravel()],
+                   "limit": float(rng.uniform(0.1, 0.99)), "has_nan": True}
+            continue
         a = a.reshape(shape)
         r = rng.integers(0, 6)
         total = float(np.cumsum(np.sort(a.ravel())[::-1])[-1]) if size else 0.0
@@ -102,6 +113,8 @@ def impl_select(case):
             warned = any(issubclass(x.category, RuntimeWarning) for x in w)
     except IndexError:
         return {"err": "emptySelection"}
+    except ValueError as e:
+        return {"err": "nanInput" if "nan" in str(e) else "ValueError"}
     except Exception as e:  # noqa: BLE001
         return {"err": type(e).__name__}
     return {"mask": "".join("1" if v else "0" for v in (np.array(mask).ravel() != 0)),
@@ -156,6 +169,11 @@ def process_arrays(ck, cases):
         vals = np.array(case["values"])
         ck.case(case, nontrivial=len(vals) >= 3 and len(set(case["values"])) >= 2, sample=ck.evaluations < 2)
         ck.count("part=A")
+        if case.get("has_nan"):
+            ck.count("A_array_with_nan")
+            if impl.get("err") != "nanInput":
+                ck.fail({"entry": "HighestDensityContour.cumsum_biggest_until", "predicate": "nan_array_refused"}, case,
+                        f"array contains nan but the call returned {impl}")
         if "err" in impl or "err" in mod:
             ck.count("A_error=" + str(impl.get("err")))
             if impl.get("err") != mod.get("err"):
@@ -229,8 +247,14 @@ def gen_hdc_cases(rng, n, thorough):
             dmax = float(max(deltas))
             if min((hi - lo) / dmax for lo, hi in limits) >= 4:
                 deltas = dmax
-        yield {"part": "C", "mode": "table" if table else "doubles", "alpha": alpha, "model": m.describe(),
-               "limits": limits, "deltas": deltas, "real_line_dim": real_line}
+        case = {"part": "C", "mode": "table" if table else "doubles", "alpha": alpha, "model": m.describe(),
+                "limits": limits, "deltas": deltas, "real_line_dim": real_line}
+        # container forms the signature accepts: list of lists, (n,2) ndarray, (max, min) pairs; deltas as tuple / ndarray
+        if rng.integers(0, 3) == 0:
+            case["limits_form"] = str(rng.choice(["list", "ndarray", "reversed"]))
+        if isinstance(deltas, list) and rng.integers(0, 3) == 0:
+            case["deltas_form"] = str(rng.choice(["tuple", "ndarray"]))
+        yield case
 
 
 def gen_int_grid_cases(rng, n):
@@ -245,22 +269,59 @@ def gen_int_grid_cases(rng, n):
                "int_grid": True}
 
 
-def gen_default_cases(rng, n):
-    """default limits (Monte-Carlo marginal_icdf) and default deltas (0.25 % of the range): the contour is
-    built once to learn the realised limits/deltas, which then define the replayable case"""
-    from virocon import HighestDensityContour
+def _grid_guess(rng, m, n_dim, alpha, cells):
+    """explicit limits / deltas of about `cells` cells per axis from a seeded sample of the model"""
+    n_s = int(min(4e5, max(2e4, 40 * n_dim / alpha)))
+    with np.errstate(all="ignore"):
+        smp = m.build().draw_sample(n_s, random_state=int(rng.integers(0, 2**31)))
+    limits, deltas = [], []
+    for i in range(n_dim):
+        col = smp[:, i][np.isfinite(smp[:, i])]
+        q = float(np.quantile(col, 1 - min(0.5, alpha / (4 * n_dim)))) if len(col) else 10.0
+        hi = max(q * float(rng.uniform(0.9, 1.4)), 0.5)
+        limits.append((0.0, hi))
+        deltas.append(hi / (cells * float(rng.uniform(0.8, 1.25))))
+    return limits, deltas
 
+
+def gen_default_cases(rng, n):
+    """the public defaults: limits=None (Monte-Carlo marginal_icdf upper limits) and / or deltas=None (0.25 % of
+    the range, 401 cells per axis).  The object built through the default path is the one that is judged (its
+    realised grid is read back and handed to the model); an exception on this path is a violation, not a skip.
+    2-D: both defaults, or one of them with the other explicit; 3-D: default limits with explicit (coarse) deltas
+    (default deltas in 3-D would mean 401^3 cells)."""
+    for k in range(n):
+        n_dim = 3 if k % 3 == 2 else 2
+        table = rng.integers(0, 3) == 0
+        m = models.random_fam_model(rng, n_dim=n_dim) if table else doubles.random_model(rng, n_dim=n_dim)
+        which = "limits" if n_dim == 3 else ["both", "limits", "deltas"][(k // 3 + k) % 3]
+        alpha = float(10 ** rng.uniform(-1.6, -0.6)) if which != "limits" else float(10 ** rng.uniform(-4, -0.6))
+        cells = int(rng.integers(10, 60)) if n_dim == 2 else int(rng.integers(8, 16))
+        limits, deltas = _grid_guess(rng, m, n_dim, alpha, cells)
+        if which in ("both", "limits"):
+            limits = None
+        if which in ("both", "deltas"):
+            deltas = None
+        elif rng.integers(0, 2):
+            deltas = float(max(deltas))
+        yield {"part": "C", "mode": "table" if table else "doubles", "alpha": alpha, "model": m.describe(),
+               "gen": "default-" + which, "default": which, "limits": limits, "deltas": deltas}
+
+
+def gen_nan_cases(rng, n):
+    """a dependence function that leaves the admissible range on part of the grid (sigma < 0 for large values of
+    the conditioning variable): the contour refuses with 'Encountered nan' - and so must the independent
+    recomputation (this is the only accepted reason for that refusal)"""
     for _ in range(n):
-        m = doubles.random_model(rng, n_dim=2)
-        alpha = float(10 ** rng.uniform(-1.6, -0.6))
-        with warnings.catch_warnings():
-            warnings.simplefilter("ignore")
-            try:
-                c = HighestDensityContour(m.build(), alpha)
-            except Exception:  # noqa: BLE001
-                continue
-        yield {"part": "C", "mode": "doubles", "alpha": alpha, "model": m.describe(), "gen": "default-limits-deltas",
-               "limits": [(float(a), float(b)) for a, b in c.limits], "deltas": [float(d) for d in c.deltas]}
+        s0 = float(rng.uniform(0.3, 0.8))
+        dims = [{"family": "Weibull", "cond": None, "params": {"alpha": ("fixed", float(rng.uniform(1.5, 3.0))),
+                                                                 "beta": ("fixed", float(rng.uniform(1.2, 2.5))),
+                                                                 "gamma": ("fixed", 0.0)}},
+                {"family": "LogNormal", "cond": 0, "params": {"mu": ("fixed", float(rng.uniform(0.5, 1.5))),
+                                                               "sigma": ("dep", "linear2", [s0, -s0 / float(rng.uniform(2.0, 5.0))])}}]
+        m = models.FamModel(dims)
+        yield {"part": "C", "mode": "table", "alpha": float(10 ** rng.uniform(-3, -1)), "model": m.describe(), "gen": "nan-parameters",
+               "limits": [(0.0, 12.0), (0.0, 20.0)], "deltas": [float(rng.uniform(0.3, 0.6)), float(rng.uniform(0.5, 1.0))]}
 
 
 def desc_of(case):
@@ -270,28 +331,80 @@ def desc_of(case):
     return f, f
 
 
+def _as_form(limits, deltas, case):
+    """the objects handed to the constructor: the same numbers in the container forms the signature accepts"""
+    lf, df = case.get("limits_form", "tuple"), case.get("deltas_form", "list")
+    if limits is not None:
+        if lf == "tuple":
+            limits = [tuple(l) for l in limits]
+        elif lf == "list":
+            limits = [list(l) for l in limits]
+        elif lf == "ndarray":
+            limits = np.array(limits, dtype=float)
+        elif lf == "reversed":  # (max, min): the code takes min()/max() of each pair
+            limits = [(l[1], l[0]) for l in limits]
+    if deltas is not None and isinstance(deltas, list):
+        if df == "tuple":
+            deltas = tuple(deltas)
+        elif df == "ndarray":
+            deltas = np.array(deltas, dtype=float)
+    return limits, deltas
+
+
 def run_hdc_impl(case, model):
+    """`limits` / `deltas` of the case may be None (public default); the realised grid is read back from the
+    object (recorded in _check_grid, so it is known even when _compute raises)"""
     _, RHDC = hdc_class()
     RHDC.rec = None
+    RHDC.grid = None
     warned = False
+    limits, deltas = _as_form(case["limits"], case["deltas"], case)
+    kw = {}
+    if limits is not None:
+        kw["limits"] = limits
+    if deltas is not None:
+        kw["deltas"] = deltas
+    out = {}
     try:
         with warnings.catch_warnings(record=True) as w:
             warnings.simplefilter("always")
             with np.errstate(all="ignore"):
-                c = RHDC(model, case["alpha"], limits=[tuple(l) for l in case["limits"]], deltas=case["deltas"])
+                c = RHDC(model, case["alpha"], **kw)
             warned = any(issubclass(x.category, RuntimeWarning) and "1-alpha" in str(x.message) for x in w)
-    except IndexError:
-        return {"err": "emptySelection", "rec": RHDC.rec}
+    except IndexError as e:
+        rec = RHDC.rec
+        if rec is not None and "mask" not in rec:
+            # raised inside cumsum_biggest_until (`summed_flat_inds[-1]` of an empty selection)
+            out = {"err": "emptySelection", "rec": rec}
+        else:
+            out = {"err": "IndexError-elsewhere", "msg": str(e), "rec": rec}
     except ValueError as e:
         if RHDC.rec is not None and "mask" in RHDC.rec:
             # the selection ran; the error comes from the later boundary extraction / point sorting (C15's
             # subject, e.g. fewer boundary cells than neighbours): compare the selection, skip fm
-            return {"err": "ValueError-after-selection", "msg": str(e), "rec": RHDC.rec}
-        return {"err": "ValueError", "msg": str(e), "rec": RHDC.rec}
-    rec = RHDC.rec
-    return {"axes": [np.array(a, dtype=float) for a in c.cell_center_coordinates], "fm": float(c.fm),
-            "warn": warned, "rec": rec, "deltas": list(np.atleast_1d(c.deltas)) if not np.isscalar(case["deltas"]) else [case["deltas"]] * model.n_dim,
-            "contour": c}
+            out = {"err": "ValueError-after-selection", "msg": str(e), "rec": RHDC.rec}
+        else:
+            out = {"err": "ValueError", "msg": str(e), "rec": RHDC.rec}
+    except Exception as e:  # noqa: BLE001
+        out = {"err": type(e).__name__ + "-unexpected", "msg": str(e)[:300], "rec": RHDC.rec}
+    else:
+        out = {"axes": [np.array(a, dtype=float) for a in c.cell_center_coordinates], "fm": float(c.fm),
+               "warn": warned, "rec": RHDC.rec, "contour": c}
+    g = RHDC.grid
+    if g is not None:
+        try:
+            le = [(float(min(l)), float(max(l))) for l in g[0]]
+            if len(le) == model.n_dim and np.all(np.isfinite(le)):
+                out["limits_eff"] = le
+        except Exception:  # noqa: BLE001
+            pass
+        try:
+            de = [float(d) for d in np.atleast_1d(np.asarray(g[1], dtype=float))]
+            if len(de) == model.n_dim and np.all(np.isfinite(de)) and min(de) > 0:
+                out["deltas_eff"] = de
+        except Exception:  # noqa: BLE001
+            pass
+    return out
 
 
 def hdc_lines(case, desc, fam, axes_for_tables):
@@ -338,48 +451,74 @@ def parse_hdc(ans, n_dim):
 def independent_cell_probs(case, desc, fam, axes):
     """cell probabilities as the documented CDF differences F(x + dx/2) - F(x - dx/2) over the ACTUAL grid
     cells (dx = spacing of the grid the contour reports), recomputed without the contour code: no division by
-    dx and no multiplication by the nominal deltas, so an inconsistency between the two is visible"""
+    dx and no multiplication by the nominal deltas, so an inconsistency between the two is visible.
+    Returns (probs, bound): `bound` is an honest bound of the rounding error of that product of differences
+    (each difference of two cdf values in [0,1] carries an absolute error of a few ulps of the cdf values,
+    which is a LARGE relative error for a tail cell)."""
     n_dim = desc.n_dim
-    deltas = case["deltas"] if isinstance(case["deltas"], list) else [case["deltas"]] * n_dim
     shape = [len(a) for a in axes]
     out = np.ones(shape)
-    model = None if fam is not None else desc.build()
+    out_hi = np.ones(shape)
+    eps = np.finfo(float).eps
     for i in range(n_dim):
         ax = axes[i]
         dx = ax[1] - ax[0]
         ci = desc.cond[i]
-        if ci is None:
+
+        def diff(g):
             if fam is not None:
-                d = fam.leaf(i, None)
-                v = (np.asarray(d.cdf(ax + 0.5 * dx)) - np.asarray(d.cdf(ax - 0.5 * dx)))
+                d = fam.leaf(i, None if g is None else float(g))
+                hi, lo = np.asarray(d.cdf(ax + 0.5 * dx), dtype=float), np.asarray(d.cdf(ax - 0.5 * dx), dtype=float)
             else:
-                s, l = desc.s[i].pars[0], desc.l[i].pars[0]
-                F = lambda x: np.where(x - l > 0, (x - l) / ((x - l) + s), 0.0)  # noqa: E731
-                v = (F(ax + 0.5 * dx) - F(ax - 0.5 * dx))
+                s_, l_ = (desc.s[i].pars[0], desc.l[i].pars[0]) if g is None else (desc.s[i].value(g), desc.l[i].value(g))
+                F = lambda x: np.where(x - l_ > 0, (x - l_) / ((x - l_) + s_), 0.0)  # noqa: E731
+                hi, lo = F(ax + 0.5 * dx), F(ax - 0.5 * dx)
+            v = hi - lo
+            return v, np.abs(v) + 8 * eps * (np.abs(hi) + np.abs(lo))
+
+        if ci is None:
+            v, vh = diff(None)
             sh = [1] * n_dim
             sh[i] = len(ax)
             out = out * v.reshape(sh)
+            out_hi = out_hi * vh.reshape(sh)
         else:
             M = np.empty((len(axes[ci]), len(ax)))
+            Mh = np.empty_like(M)
             for k, g in enumerate(axes[ci]):
-                if fam is not None:
-                    d = fam.leaf(i, float(g))
-                    M[k] = (np.asarray(d.cdf(ax + 0.5 * dx)) - np.asarray(d.cdf(ax - 0.5 * dx)))
-                else:
-                    s, l = desc.s[i].value(g), desc.l[i].value(g)
-                    F = lambda x: np.where(x - l > 0, (x - l) / ((x - l) + s), 0.0)  # noqa: E731
-                    M[k] = (F(ax + 0.5 * dx) - F(ax - 0.5 * dx))
+                M[k], Mh[k] = diff(g)
             # place (cond, dist) on axes (ci, i) explicitly (einsum-free, independent of reshape tricks)
-            idx = [None] * n_dim
-            if ci < i:
-                MM = M
-            else:
-                MM = M.T
+            MM, MMh = (M, Mh) if ci < i else (M.T, Mh.T)
             a, b = min(ci, i), max(ci, i)
             sh = [1] * n_dim
             sh[a], sh[b] = MM.shape
             out = out * MM.reshape(sh)
-    return out
+            out_hi = out_hi * MMh.reshape(sh)
+    return out, out_hi - np.abs(out)
+
+
+def border_cells(axes):
+    """cell centres of the outer layer of the grid (what remains of an all-ones region after the erosion)"""
+    shape = [len(a) for a in axes]
+    idx = np.indices(shape).reshape(len(shape), -1).T
+    on = np.zeros(len(idx), dtype=bool)
+    for k, n in enumerate(shape):
+        on |= (idx[:, k] == 0) | (idx[:, k] == n - 1)
+    return {tuple(float(axes[k][i[k]]) for k in range(len(shape))) for i in idx[on]}
+
+
+def effective_case(case, impl):
+    """the case with the realised grid filled in where the public default was used"""
+    e = dict(case)
+    if e.get("limits") is None:
+        e["limits"] = impl.get("limits_eff")
+    if e.get("deltas") is None:
+        e["deltas"] = impl.get("deltas_eff")
+    return e
+
+
+def fail_hdc(ck, case, pred, detail):
+    ck.fail({"entry": "HighestDensityContour", "predicate": pred}, case, detail)
 
 
 def process_hdc(ck, case):
@@ -387,45 +526,94 @@ def process_hdc(ck, case):
     model = desc.build()
     impl = run_hdc_impl(case, model)
     n_dim = desc.n_dim
-    # grid axes for the TABLE lines: numpy's own arange (the model recomputes them and is compared)
-    deltas = case["deltas"] if isinstance(case["deltas"], list) else [case["deltas"]] * n_dim
-    axes_ref = [np.arange(min(l), max(l) + d, d) for l, d in zip(case["limits"], deltas)]
-    ans = ck.driver.run(hdc_lines(case, desc, fam, axes_ref))
-    mod = parse_hdc(ans[-1], n_dim)
     ck.case(case, nontrivial=desc.n_dependent() >= 1)
     ck.count("part=C")
     ck.count("C_mode=" + case["mode"])
-    if case.get("real_line_dim") is not None:
+    if case.get("gen"):
+        ck.count("C_gen=" + case["gen"])
+    if case.get("default"):
+        ck.count(f"C_default_{case['default']}_n_dim={n_dim}")
+    if case.get("limits_form", "tuple") != "tuple":
+        ck.count("C_limits_form=" + case["limits_form"])
+    if case.get("deltas_form", "list") != "list" and isinstance(case["deltas"], list):
+        ck.count("C_deltas_form=" + case["deltas_form"])
+    if case.get("real_line_dim") is not None and case["limits"] is not None:
         ck.count("C_real_line_family" + ("_negative_lower_limit" if case["limits"][case["real_line_dim"]][0] < 0 else "_limit_at_0"))
     ck.count(f"C_n_dim={n_dim}")
-    ck.count("C_deltas=" + ("scalar" if not isinstance(case["deltas"], list) else "list"))
+    ck.count("C_deltas=" + ("default" if case["deltas"] is None else "scalar" if not isinstance(case["deltas"], list) else "list"))
+    ecase = effective_case(case, impl)
+    if ecase["limits"] is None or ecase["deltas"] is None:
+        # the default grid could not even be set up on a well-formed model
+        fail_hdc(ck, case, "default_grid_computes", "no usable default limits/deltas (finite, one per dimension, deltas > 0) were set up: "
+                 f"{impl.get('err', 'no exception')} {impl.get('msg', '')}")
+        return
+    # grid axes for the TABLE lines: numpy's own arange (the model recomputes them and is compared)
+    deltas = ecase["deltas"] if isinstance(ecase["deltas"], list) else [ecase["deltas"]] * n_dim
+    axes_ref = [np.arange(min(l), max(l) + d, d) for l, d in zip(ecase["limits"], deltas)]
+    ans = ck.driver.run(hdc_lines(ecase, desc, fam, axes_ref))
+    mod = parse_hdc(ans[-1], n_dim)
     if "err" in impl:
         ck.count("C_impl_error=" + impl["err"])
+        if impl["err"] == "IndexError-elsewhere" or impl["err"].endswith("-unexpected"):
+            fail_hdc(ck, case, "contour_computes", f"{impl['err']}: {impl.get('msg', '')}")
+            return
         if impl["err"] == "ValueError" and "nan" in impl.get("msg", ""):
-            return  # nan in cell averaged pdf: the code refuses, nothing to compare
+            # nan in the cell averaged pdf: the code refuses. Legitimate only if the independently recomputed
+            # CDF differences contain NaN as well (inadmissible parameters somewhere on the grid)
+            with np.errstate(all="ignore"), warnings.catch_warnings():
+                warnings.simplefilter("ignore")
+                indep, _ = independent_cell_probs(ecase, desc, fam, axes_ref) if all(len(a) >= 2 for a in axes_ref) else (np.array([np.nan]), None)
+            if not np.isnan(indep).any():
+                fail_hdc(ck, case, "nan_refusal_without_nan",
+                         "the contour refuses with 'Encountered nan' but all independently recomputed cell probabilities are numbers")
+            else:
+                ck.count("C_nan_refusal_confirmed_by_independent_probs")
+                if not str(mod.get("err", "")).startswith("nan"):
+                    ck.diverge("hdc-pipeline:" + case["mode"], case, f"impl refuses (nan), model {mod.get('err', 'returns a region')}")
+            return
         if impl["err"] == "ValueError-after-selection":
             rec = impl["rec"]
             bad = [] if rec["warned"] else selection_oracle(rec["probs"], rec["limit"], rec["mask"], rec["last"], rec["warned"])
             for pred, detail in bad:
-                ck.fail({"entry": "HighestDensityContour", "predicate": pred}, case, detail)
+                fail_hdc(ck, case, pred, detail)
             if not bad and "err" not in mod and not rec["warned"]:
                 imask = "".join("1" if v else "0" for v in rec["mask"].ravel())
                 if imask != mod["mask"] and not same_up_to_ties(rec["probs"], imask, mod["mask"]):
                     ck.diverge("hdc-pipeline:" + case["mode"], case, "selected region differs (contour later failed in boundary extraction)")
             return
+        if impl["err"] == "ValueError":
+            # not the NaN refusal, not after the selection: the grid of a well-formed case was rejected
+            fail_hdc(ck, case, "contour_computes", f"ValueError: {impl.get('msg', '')}")
+            return
         if mod.get("err") != impl["err"]:
-            ck.diverge("hdc-pipeline", case, f"impl error {impl['err']} model {mod}")
+            ck.diverge("hdc-pipeline", case, f"impl error {impl['err']} {impl.get('msg', '')} model {str(mod)[:300]}")
         return
     rec = impl["rec"]
     bad = []
     # oracle: selection facts on what _compute selected, fm, warning, cell probabilities
     probs = rec["probs"]
+    fallback_diff = None
     if impl["warn"]:
         ck.count("C_warned")
         if impl["fm"] != 0:
             bad.append(("fallback_fm_zero", f"fm={impl['fm']!r} after warning"))
         if math.fsum(probs.ravel()) >= rec["limit"] * (1 + 1e-12):
             bad.append(("warning_only_if_unreachable", f"grid content {math.fsum(probs.ravel())!r} >= {rec['limit']!r}"))
+        # model (fallback_all_cells / hdr_region_spec): the region is the WHOLE grid; what the contour
+        # reports is then the outer layer of the grid
+        co = impl["contour"].coordinates
+        try:
+            got = {tuple(float(v) for v in row) for row in np.asarray(co, dtype=float).reshape(-1, n_dim)} if not isinstance(co, list) else None
+        except Exception:  # noqa: BLE001
+            got = None
+        want = border_cells(impl["axes"])
+        if got is None:
+            fallback_diff = "after the warning the contour consists of several parts, the whole grid has one boundary"
+        elif got != want:
+            fallback_diff = (f"after the warning the contour is not the outer layer of the whole grid: {len(got)} points, "
+                             f"expected {len(want)}; {len(got - want)} not on the border, {len(want - got)} border cells missing")
+        else:
+            ck.count("C_warned_region_is_whole_grid")
     else:
         bad += selection_oracle(probs, rec["limit"], rec["mask"], rec["last"], rec["warned"], tag="")
         fm_want = rec["last"]
@@ -439,20 +627,22 @@ def process_hdc(ck, case):
         bad.append(("limit_is_one_minus_alpha", f"limit {rec['limit']!r} alpha {case['alpha']!r}"))
     if all(len(a) >= 2 for a in impl["axes"]):
         with np.errstate(all="ignore"):
-            indep = independent_cell_probs(case, desc, fam, impl["axes"])
+            indep, bound = independent_cell_probs(ecase, desc, fam, impl["axes"])
         if indep.shape != probs.shape:
             bad.append(("cell_prob_shape", f"{probs.shape} vs {indep.shape}"))
         else:
-            scale = max(float(np.nanmax(np.abs(indep))), 1e-300)
+            # tolerance relative to EACH cell (a tail cell that decides the cut at small alpha is 1e-10 of the
+            # largest one) plus the rounding bound of the differences of cdf values
             err = np.abs(indep - probs)
-            if not np.all(err <= 1e-9 * scale + 1e-12 * np.abs(indep)):
-                d = np.unravel_index(np.nanargmax(err), err.shape)
-                bad.append(("cell_prob_is_cdf_difference", f"cell {d}: contour {probs[d]!r} independent {indep[d]!r}"))
+            tol = 1e-11 * np.abs(indep) + 4 * bound + 1e-300
+            if not np.all(err <= tol):
+                d = np.unravel_index(np.nanargmax(np.where(err <= tol, -1.0, err / np.maximum(tol, 1e-300))), err.shape)
+                bad.append(("cell_prob_is_cdf_difference", f"cell {d}: contour {probs[d]!r} independent {indep[d]!r} (tolerance {tol[d]!r})"))
         if np.nanmin(probs) < -1e-15:
             ck.count("C_negative_cell_prob")
     ck.hyp_checked += int(probs.size)
     for pred, detail in bad:
-        ck.fail({"entry": "HighestDensityContour", "predicate": pred}, case, detail)
+        fail_hdc(ck, case, pred, detail)
     # correspondence
     if "err" in mod:
         d = f"model error {mod['err']} but implementation returned fm={impl['fm']!r}"
@@ -464,6 +654,8 @@ def process_hdc(ck, case):
                 d = f"grid axis {i} differs"
         if d is None and impl["warn"] != mod["warn"]:
             d = f"warning impl={impl['warn']} model={mod['warn']}"
+        if d is None and impl["warn"] and fallback_diff is not None:
+            d = fallback_diff
         if d is None and not impl["warn"]:
             imask = "".join("1" if v else "0" for v in rec["mask"].ravel())
             if imask != mod["mask"] and same_up_to_ties(rec["probs"], imask, mod["mask"]):
@@ -472,15 +664,20 @@ def process_hdc(ck, case):
             if imask != mod["mask"]:
                 k = next(i for i in range(len(imask)) if imask[i] != mod["mask"][i])
                 d = f"selected region differs at flat cell {k} (impl {imask.count('1')} cells, model {mod['mask'].count('1')})"
+                if case["mode"] == "table" and abs(impl["fm"] - mod["fm"]) <= 1e-9 * max(abs(mod["fm"]), 1e-300):
+                    # leaves evaluated scalar-vs-vector may differ in the last bit: the two regions may then differ,
+                    # but only in cells whose probability equals the cut value up to that noise
+                    pf = rec["probs"].ravel()
+                    diff = np.array([a != b for a, b in zip(imask, mod["mask"])])
+                    if np.all(np.abs(pf[diff] - rec["last"]) <= 1e-7 * abs(rec["last"])):
+                        ck.count("C_table_inexact_ok")
+                        d = None
             elif f2b(impl["fm"]) != f2b(mod["fm"]):
                 d = f"fm impl={impl['fm']!r} model={mod['fm']!r}"
+                if case["mode"] == "table" and abs(impl["fm"] - mod["fm"]) <= 1e-9 * max(abs(mod["fm"]), 1e-300):
+                    ck.count("C_table_inexact_ok")
+                    d = None
     if d is not None and not bad:
-        if case["mode"] == "table":
-            # leaves evaluated scalar-vs-vector may differ in the last bit: accept if the oracle holds
-            # and fm agrees to 1e-9
-            if "err" not in mod and abs(impl["fm"] - mod["fm"]) <= 1e-9 * max(abs(mod["fm"]), 1e-300) and impl["warn"] == mod["warn"]:
-                ck.count("C_table_inexact_ok")
-                return
         ck.diverge("hdc-pipeline:" + case["mode"], case, d)
 
 
@@ -524,6 +721,14 @@ def main(ck):
                "hierarchical models (rational doubles and shipped families), alpha in [1e-6,0.3], explicit limits, scalar "
                "and per-dimension deltas; non-trivial = array with >= 3 cells and >= 2 distinct values / model with a "
                "dependent parameter; distinct by SHA1")
+    ck.partial = {
+        "cell probabilities >= 0 (hypothesis hnn of cumsum_biggest_until_spec / hdr_region_spec)": "counted when violated (C_negative_cell_prob); the "
+        "selection facts are evaluated directly on the recorded arrays in any case",
+        "cell probabilities are the CDF differences": "recomputed independently per run, tolerance relative to each cell + rounding bound of the differences",
+        "float rounding of the cumulative sum": "facts checked with an n*eps band",
+        "values of the default limits / deltas": "not judged (the property quantifies over them); the grid realised by the default path is judged like an explicit one",
+        "whole-grid fallback after the warning": "the reported contour is compared with the outer layer of the grid (correspondence with fallback_all_cells)",
+    }
     ck.assumptions = ["cell probabilities are non-negative (leaf cdf monotone): counted when violated",
                       "table mode: leaf cdf values enter the model as TABLE lines from constructed template instances"]
     arrays = list(gen_arrays(rng, 10000 if thorough else 1500))
@@ -531,7 +736,9 @@ def main(ck):
         process_arrays(ck, arrays[k:k + 250])
     for case in gen_hdc_cases(rng, 1200 if thorough else 140, thorough):
         process_hdc(ck, case)
-    for case in gen_default_cases(rng, 12 if thorough else 2):
+    for case in gen_default_cases(rng, 24 if thorough else 6):
+        process_hdc(ck, case)
+    for case in gen_nan_cases(rng, 6 if thorough else 2):
         process_hdc(ck, case)
     for case in gen_int_grid_cases(rng, 60 if thorough else 8):
         process_hdc(ck, case)
